@@ -1479,7 +1479,7 @@ pub fn run_random(d: &mut Driver, rng: &mut Rng, p: &Profile, steps: usize) {
                             ended = true;
                             Some(match rng.below(4) {
                                 0 => json!({"op":"eof"}),
-                                1 => json!({"op":"read_fail"}),
+                                1 => if p.w_end >= 6 && rng.chance(1, 2) { json!({"op":"read_fail","kind":"unexpected_eof"}) } else { json!({"op":"read_fail"}) },
                                 2 => json!({"op":"write_mode","mode":"fail"}),
                                 _ => json!({"op":"drop_conn"}),
                             })
